@@ -4,6 +4,6 @@ from .simprops import generic_run, sizes, sim_replay
 from .p_session import run_session_correspondence
 LABELS = {"C02", "PANIC"}
 def run(ctx):
-    generic_run(ctx, LABELS, extra=run_session_correspondence, plan=[("c01", lambda: F.fam_c01(ctx.rng, sizes(ctx, 250, 2500), tag="c02", windows=(1, 2, 3, 8, 12))), ("starve", lambda: F.fam_starve(ctx.rng, sizes(ctx, 80, 600))), ("spectator", lambda: F.fam_spectator(ctx.rng, sizes(ctx, 60, 500))), ("death2", lambda: F.fam_death(ctx.rng, sizes(ctx, 60, 500)))])
+    generic_run(ctx, LABELS, extra=run_session_correspondence, plan=[("edge", lambda: F.fam_edge(ctx.rng, sizes(ctx, 120, 1200))), ("c01", lambda: F.fam_c01(ctx.rng, sizes(ctx, 250, 2500), tag="c02", windows=(1, 2, 3, 8, 12))), ("starve", lambda: F.fam_starve(ctx.rng, sizes(ctx, 80, 600))), ("spectator", lambda: F.fam_spectator(ctx.rng, sizes(ctx, 60, 500))), ("death2", lambda: F.fam_death(ctx.rng, sizes(ctx, 60, 500)))])
 def replay(ctx, path):
     return sim_replay(ctx, path, LABELS)
